@@ -120,8 +120,16 @@ class OggVCommentDict(VCommentDict):
         # Find the old pages in the file; we'll need to remove them,
         # plus grab any stray setup packet data out of them.
         fileobj.seek(0)
+        # The comment belongs to the stream loading reads it from: the
+        # first one with a Vorbis identification header.
         page = OggPage(fileobj)
-        while not (page.packets and page.packets[0].startswith(b"\x03vorbis")):
+        while not (page.packets and page.packets[0].startswith(b"\x01vorbis")):
+            page = OggPage(fileobj)
+        serial = page.serial
+
+        page = OggPage(fileobj)
+        while not (page.serial == serial and page.packets and
+                   page.packets[0].startswith(b"\x03vorbis")):
             page = OggPage(fileobj)
 
         old_pages = [page]
